@@ -269,6 +269,7 @@ pub fn cluster_check(property: &str, tier: &str) -> Option<Check> {
             Some(Check { runs, budget_s: if quick { 50 } else { 1200 } })
         }
         "C03" | "C26" | "C27" | "C28" => Some(membership_check(property, quick)),
+        "C10" | "C11" | "C12" => Some(timed_check(property, quick)),
         _ => None,
     }
 }
@@ -428,6 +429,177 @@ fn membership_check(property: &str, quick: bool) -> Check {
             max_depth: if quick { 8 } else { 11 },
             max_devs: if quick { 2 } else { 3 },
         });
+    }
+    Check { runs, budget_s: if quick { 50 } else { 1200 } }
+}
+
+/// Timed explorations (C10, C11, C12): virtual time passes only through `Tick` (jump to the next
+/// timer deadline of a live node); election timeouts are 10 s + 2 s per node position, heartbeat
+/// 3 s, lease 5 s (lease < minimum election timeout, as validation demands).
+pub fn timed_opts() -> Opts {
+    let mut o = Opts::default();
+    o.timed = true;
+    o.election_min_ms = 10_000;
+    o.election_offsets_ms = vec![0, 2_000, 4_000, 6_000, 8_000];
+    o.heartbeat_ms = 3_000;
+    o.lease_ms = 5_000;
+    o.raft_timeout_ms = 7_000;
+    o.noop_timeout_ms = 20_000;
+    o
+}
+
+fn timed_check(property: &str, quick: bool) -> Check {
+    use crate::simkit::cluster::RPolicy;
+    let mut runs = vec![];
+    let opts = timed_opts();
+    let mut menu = Menu::default();
+    menu.timeouts = false;
+    menu.heartbeats = false;
+    menu.max_ticks = if quick { 7 } else { 10 };
+    menu.vote_answers = vec![VoteAns::Deliver, VoteAns::Lose];
+    menu.writes = vec![put("a", "1"), put("a", "2")];
+    menu.max_writes = 1;
+    menu.write_targets = crate::simkit::menu::Targets::Leaders;
+    menu.read_targets = crate::simkit::menu::Targets::Leaders;
+    menu.max_reads = 2;
+    match property {
+        "C12" => menu.reads = vec![("a".into(), RPolicy::Lease)],
+        _ => menu.reads = vec![("a".into(), RPolicy::Linearizable)],
+    }
+    if property == "C10" {
+        menu.crashes = vec![CrashMode::Process];
+        menu.max_crashes = 1;
+    }
+    // ---- A: an established leader whose lease was just renewed by both followers
+    if let Some(p) = build_prefix(&opts, |s| {
+        let Some(_l) = s.run_until_leader() else { return false };
+        s.drain_all();
+        true
+    }) {
+        runs.push(RunSpec {
+            name: "3v-timed-established-leader".into(),
+            opts: opts.clone(),
+            menu: menu.clone(),
+            prefix: p,
+            max_depth: if quick { 11 } else { 14 },
+            max_devs: if quick { 2 } else { 3 },
+        });
+    }
+    // ---- P: partial partition. Leader 1 keeps exchanging heartbeats with node 2 (its lease is
+    //         fresh) while nothing reaches node 3, which finally starts an election. The prefix
+    //         ends with node 3's vote requests in flight.
+    if let Some(p) = build_prefix(&opts, |s| {
+        let Some(l) = s.run_until_leader() else { return false };
+        if l != 1 {
+            return false;
+        }
+        s.drain_all();
+        for _ in 0..40 {
+            if s.election_node() == Some(3) {
+                return true;
+            }
+            if s.election_node().is_some() {
+                return false;
+            }
+            s.ev(Event::Tick);
+            // whatever the leader sends reaches node 2 (and is acknowledged), never node 3
+            s.drain(|l, _| l.from == 1 && l.to == 2);
+        }
+        false
+    }) {
+        let mut m = menu.clone();
+        m.max_ticks = if quick { 2 } else { 4 };
+        m.max_writes = 1;
+        m.write_targets = crate::simkit::menu::Targets::Leaders;
+        runs.push(RunSpec {
+            name: "3v-timed-node3-cut-off-starts-election-while-leader-lease-is-fresh".into(),
+            opts: opts.clone(),
+            menu: m,
+            prefix: p,
+            max_depth: if quick { if property == "C10" { 7 } else { 9 } } else { 12 },
+            max_devs: if quick { 2 } else { 3 },
+        });
+    }
+    // ---- B: same, with an acknowledged write and a gated (lagging) state machine on the leader
+    let mut og = opts.clone();
+    og.gated_sm = vec![1];
+    if property != "C12" {
+        if let Some(p) = build_prefix(&og, |s| {
+            let Some(l) = s.run_until_leader() else { return false };
+            s.drain_all();
+            // let the leader apply its no-op
+            for _ in 0..4 {
+                let waiting = s.view(l).is_some();
+                if !waiting {
+                    break;
+                }
+                let c = s.events.len();
+                let _ = c;
+                break;
+            }
+            true
+        }) {
+            let mut m = menu.clone();
+            m.max_ticks = if quick { 4 } else { 7 };
+            runs.push(RunSpec {
+                name: "3v-timed-leader-with-lagging-state-machine".into(),
+                opts: og.clone(),
+                menu: m,
+                prefix: p,
+                max_depth: if quick { 9 } else { 12 },
+                max_devs: if quick { 2 } else { 3 },
+            });
+        }
+    }
+    // ---- R (C10): an acknowledged write, then a graceful stop of the WHOLE cluster in every
+    //         order, restart, a new election; a linearizable read must return the value
+    if property == "C10" {
+        let orders: Vec<[u32; 3]> = vec![[1, 2, 3], [1, 3, 2], [2, 1, 3], [2, 3, 1], [3, 1, 2], [3, 2, 1]];
+        for (k, ord) in orders.iter().enumerate() {
+            if quick && k % 2 == 1 {
+                continue;
+            }
+            let ord = *ord;
+            if let Some(p) = build_prefix(&opts, move |s| {
+                let Some(l) = s.run_until_leader() else { return false };
+                s.drain_all();
+                s.ev(Event::ClientWrite(l, put("a", "kept")));
+                s.drain_all();
+                // one more heartbeat round so that the followers learn the commit index
+                s.ev(Event::Tick);
+                s.drain_all();
+                for n in ord {
+                    s.ev(Event::Stop(n));
+                }
+                for n in ord.iter().rev() {
+                    s.ev(Event::Restart(*n));
+                }
+                let Some(_l2) = s.run_until_leader() else { return false };
+                s.drain_all();
+                true
+            }) {
+                let mut m = menu.clone();
+                m.crashes = vec![];
+                m.max_crashes = 0;
+                m.max_writes = 0;
+                m.max_ticks = 2;
+                m.max_reads = 1;
+                runs.insert(0, RunSpec {
+                    name: format!("3v-timed-acked-write-full-graceful-restart-order-{}{}{}", ord[0], ord[1], ord[2]),
+                    opts: opts.clone(),
+                    menu: m,
+                    prefix: p,
+                    max_depth: if quick { 4 } else { 6 },
+                    max_devs: 1,
+                });
+            }
+        }
+        // the crash exploration from an established leader is the most expensive run: last
+        if let Some(pos) = runs.iter().position(|r| r.name == "3v-timed-established-leader") {
+            let mut r = runs.remove(pos);
+            r.max_depth = if quick { 8 } else { 13 };
+            runs.push(r);
+        }
     }
     Check { runs, budget_s: if quick { 50 } else { 1200 } }
 }
